@@ -94,6 +94,13 @@ def cases(tier, seed):
     for m, n in itertools.product(range(1, Sc + 1), repeat=2):
         out.append({"key": f"e/norm/{m}x{n}", "grp": "e", "m": m, "n": n})
     out.append({"key": "s/scalar_and_vector_forms", "grp": "s"})
+    # component-support masks: entries confined to span of a subset of {1,i,j,k}, all 15 x 15 mask pairs
+    for m, k, n in itertools.product(range(1, 3), repeat=3):
+        out.append({"key": f"m/masks/{m}x{k}x{n}", "grp": "m", "m": m, "k": k, "n": n})
+    out.append({"key": "m/masks/3x3x3", "grp": "m", "m": 3, "k": 3, "n": 3})
+    # aliased operands (the same object on both sides) and non-canonical sparse storage
+    for n in range(1, 5):
+        out.append({"key": f"x/aliased_and_noncanonical/{n}", "grp": "x", "n": n})
     return out
 
 
@@ -294,6 +301,79 @@ def run_case(case, seed):
                 rhs = float(u.quat_frobenius_norm(G.to_quat(A))) * float(u.quat_frobenius_norm(G.to_quat(B)))
                 if not lhs <= rhs * (1 + 64 * O.U * m * n) + 0.0:
                     fails.append(fail("submultiplicative", f"{c1},{c2}: {lhs!r} > {rhs!r}", ca=c1, cb=c2))
+    elif grp == "m":
+        m, k, n = case["m"], case["k"], case["n"]
+        fill = G.Fill(seed, stream=hash_tag(case["key"]))
+        A0 = fill.ints((m, k, 4), -3, 3)
+        B0 = fill.ints((k, n, 4), -3, 3)
+        A0[A0 == 0] = 1
+        B0[B0 == 0] = -2
+        for ma, mb in itertools.product(G.COMPONENT_MASKS, G.COMPONENT_MASKS):
+            Ai = G.apply_component_mask(A0, ma).astype(np.int64)
+            Bi = G.apply_component_mask(B0, mb).astype(np.int64)
+            Cexp = O.qmatmul(Ai, Bi).astype(float)
+            nontriv += len(PATHS)
+            check_product(Ai.astype(float), Bi.astype(float), Cexp, f"mask {G.mask_name(ma)} x {G.mask_name(mb)}", {"grp": "m", "ma": ma, "mb": mb})
+    elif grp == "x":
+        n = case["n"]
+        u = lib.utils
+        fill = G.Fill(seed, stream=hash_tag(case["key"]))
+        for rep in range(3):
+            Ai = fill.ints((n, n, 4), -4, 4)
+            A = Ai.astype(float)
+            Cexp = O.qmatmul(Ai, Ai).astype(float)
+            nontriv += 1
+            # the very same object as both operands
+            Aq = G.to_quat(A)
+            ok, got = call(lambda: G.from_quat(u.quat_matmat(Aq, Aq)))
+            evals += 1
+            if not ok or not exact_eq(got, Cexp):
+                fails.append(fail("product!=definition", f"quat_matmat(A, A) with the same object, n={n}", path="dd", aliased=True))
+            As = to_sparse(lib, A)
+            ok, got = call(lambda: sparse_to_arr(u.quat_matmat(As, As)))
+            evals += 1
+            if not ok or not exact_eq(got, Cexp):
+                fails.append(fail("product!=definition", f"quat_matmat(S, S) with the same sparse object, n={n}", path="ss", aliased=True))
+            ok, got = call(lambda: G.from_quat(u.quat_matmat(As, Aq)))
+            evals += 1
+            if not ok or not exact_eq(got, Cexp):
+                fails.append(fail("product!=definition", f"sparse x dense of the same data, n={n}", path="sd", aliased=True))
+            ok, got = call(lambda: np.stack(u.timesQsparse(*comps(A), *comps(A)), -1))
+            evals += 1
+            if not ok or not exact_eq(got, Cexp):
+                fails.append(fail("product!=definition", f"timesQsparse with the same planes, n={n}", path="tq", aliased=True))
+            # (S^H then S reused): conjugate / transpose must not modify the operand
+            before = sparse_to_arr(As).copy()
+            ok, SH = call(u.quat_hermitian, As)
+            evals += 1
+            if not ok or not exact_eq(sparse_to_arr(SH), O.qH(A)) or not exact_eq(sparse_to_arr(As), before):
+                fails.append(fail("hermitian_sparse", f"quat_hermitian(S) wrong or modified S, n={n}", via="reuse"))
+            ok, got = call(lambda: sparse_to_arr(u.quat_matmat(u.quat_hermitian(As), As)))
+            evals += 1
+            if not ok or not exact_eq(got, O.qmatmul(O.qH(Ai).astype(np.int64), Ai).astype(float)):
+                fails.append(fail("product!=definition", f"S^H S after reusing S, n={n}", path="ss", aliased=True))
+            # non-canonical CSR storage: every entry stored as two summands at the same position
+            def noncanon(P):
+                r, c = np.nonzero(np.ones_like(P))
+                d1 = np.floor(P[r, c] / 2.0)
+                d2 = P[r, c] - d1
+                rows = np.concatenate([r, r])
+                cols = np.concatenate([c, c])
+                order = np.lexsort((cols, rows))
+                data = np.concatenate([d1, d2])[order]
+                indptr = np.concatenate([[0], np.cumsum(np.bincount(rows, minlength=P.shape[0]))])
+                return sp.csr_matrix((data, cols[order], indptr), shape=P.shape)
+
+            Snc = u.SparseQuaternionMatrix(*[noncanon(c) for c in comps(A)], (n, n))
+            exactF = math.sqrt(O.fro2_exact(Ai))
+            ok, v = call(u.quat_frobenius_norm, Snc)
+            evals += 1
+            if not ok or abs(float(v) - exactF) > 64 * O.U * 4 * n * n * max(exactF, 1.0):
+                fails.append(fail("frobenius!=definition", f"sparse matrix with duplicate stored entries: {v!r} vs {exactF!r}", fn="fro_sparse", cls="noncanonical"))
+            ok, got = call(lambda: G.from_quat(u.quat_matmat(Snc, Aq)))
+            evals += 1
+            if not ok or not exact_eq(got, Cexp):
+                fails.append(fail("product!=definition", f"non-canonical sparse x dense, n={n}", path="sd", cls="noncanonical"))
     elif grp == "s":
         # timesQsparse scalar x matrix, matrix x scalar, 1-D row x matrix forms used by the Krylov kernels
         u = lib.utils
